@@ -31,12 +31,12 @@ theorem safeNext_exact (old n : Nat) (h : n ≤ kMax) : SafeNextCapacity old n t
   simp only [↓reduceIte] <;> first | rfl | (congr 1; exact Nat.mod_eq_of_lt (by omega))
 
 /-- the unclamped-then-clamped growth target: max(⌈1.5·old⌉, n) limited to the size_type maximum -/
-def nextCap (old n : Nat) : Nat := Nat.min (Nat.max ((3 * old + 1) / 2) n) kMax
+abbrev nextCap (old n : Nat) : Nat := nextCapOf kMax old n
 
 /-- a growth request that fits the size_type succeeds with `nextCap` -/
 theorem safeNext_grow (old n : Nat) (h : n ≤ kMax) (h62 : old < 2 ^ 62) :
     SafeNextCapacity old n false = .ok (nextCap old n) := by
-  unfold kMax at *; unfold nextCap kMax
+  unfold kMax at *; unfold nextCap nextCapOf kMax
   unfold SafeNextCapacity
   simp only [Bool.false_eq_true, ↓reduceIte, decide_eq_true_eq]
   have e1 : (3 * old) % 18446744073709551616 = 3 * old := Nat.mod_eq_of_lt (by omega)
@@ -57,7 +57,7 @@ theorem safeNext_grow (old n : Nat) (h : n ≤ kMax) (h62 : old < 2 ^ 62) :
 
 theorem nextCap_props (old n : Nat) (h : n ≤ kMax) :
     n ≤ nextCap old n ∧ nextCap old n ≤ kMax ∧ (nextCap old n = kMax ∨ (3 * old + 1) / 2 ≤ nextCap old n) := by
-  unfold nextCap; simp only [Nat.min_def, Nat.max_def]; repeat' split
+  unfold nextCap nextCapOf; simp only [Nat.min_def, Nat.max_def]; repeat' split
   all_goals omega
 
 /-- a request beyond the size_type maximum is refused with `overflow_error` -/
@@ -135,11 +135,9 @@ theorem grow_calls (t : VB) (minSize : Nat) (exact : Bool) (fresh : Nat) (e : Ex
 theorem grow_law (N : Nat) (hN : N < kMax) (t : VB) (h : SRep N kMax t) (minSize : Nat) (exact : Bool) (fresh r : Nat)
     (hr : SafeNextCapacity (SVB.capacity t) minSize exact = .ok r) :
     SVB.grow t minSize exact fresh = .ok (⟨r, SVB.size t, PtrV.blk (fresh + 0)⟩,
-      (if SVB.isSmall t then
-         [Eff.alloc r (PtrV.blk (fresh + 0)), Eff.relocN (PtrV.inl 0) (SVB.size t) (PtrV.blk (fresh + 0)), Eff.setDyn 0]
-       else [Eff.realloc t.dyn (SVB.capacity t) r (SVB.size t) (PtrV.blk (fresh + 0)), Eff.setDyn 0])) := by
+      growEffs (SVB.isSmall t) t (SVB.size t) (SVB.capacity t) r fresh) := by
   unfold SRep at *; unfold kMax at *
-  unfold SVB.grow; unfold SVB.capacity SVB.size SVB.isSmall at *
+  unfold SVB.grow growEffs; unfold SVB.capacity SVB.size SVB.isSmall at *
   rcases h with ⟨h1, h2⟩ | ⟨h1, h2⟩ | ⟨h1, h2⟩
   all_goals
     repeat' split
@@ -341,5 +339,30 @@ theorem fvb_sizes (t o : VB) (s n : Nat) (h : t.size < kMax) (hp : 0 < t.size) :
   unfold kMax at h
   unfold FVB.incrSize FVB.decrSize FVB.setSize FVB.swap_impl FVB.move_assign FVB.move_construct
   refine ⟨?_, ?_, rfl, rfl, rfl, rfl, rfl, rfl, rfl⟩ <;> dsimp only <;> omega
+
+/-- the generated SmallVectorBase members of this size type satisfy every word law -/
+theorem svb_laws (N : Nat) (hN : N < kMax) (hN0 : 0 < N) : SmallLaws svbOps N where
+  kmax := hN
+  npos := hN0
+  bounds := bounds N hN
+  begin_small := begin_small
+  ctor := ctor_law N hN hN0 default
+  incr := incrSize_law N hN
+  decr := decrSize_law N hN
+  setSize := setSize_law N hN
+  growErr := grow_calls
+  growOk := grow_law N hN
+  grownRep := fun sz r d => grown_rep N sz r d
+  safeExact := safeNext_exact
+  safeGrow := safeNext_grow
+  safeOverflow := safeNext_overflow
+  moveAssignRep := moveAssign_rep N hN hN0
+  moveAssignSteal := moveAssign_steal N hN hN0
+  moveAssignInline := moveAssign_inline N hN hN0
+  moveAssignIntoHeap := moveAssign_intoHeap N hN hN0
+  moveConstruct := moveConstruct_law N hN hN0
+  swapImpl := swapImpl_law N hN
+  shrinkImpl := shrinkImpl_law N hN
+  dtor := dtor_law
 
 end AmcVerif.Bridge.U64
